@@ -277,7 +277,7 @@ PROPS = {
         "harness": "c09", "driver": "c09", "shards": 8, "harness_shards": 8,
         "classify": c09_class,
         "nontrivial": lambda cls: cls["chunks"] != "1" or cls["failure"] != "none",
-        "rule": "real sync-TCP and WebSocket servers, one SVS producer per (kind, element type, chunk_bytes, session_depth, compression); byte producers (reader, writer): payload lengths 0..3n+1 for n in {1,2,3,7,8}, all boundary residues k*n-1, k*n, k*n+1 for n in {64, 4096} (+65536, 1 MiB thorough), depths 0..3 (quick) / 0..8 (thorough), both compressions; every split of tiny payloads into <=3 writes plus random segmentations incl. zero-length and over-long writes; failure injected at 0, 1, L and every chunk boundary +-1; random sleeps in producer and consumer; BEVE producers (serde value, typed arrays, complex array) around the same boundaries; pullers blocking / async / WebSocket; per case: raw peer open, next until last or error, one more next; second stream with cancel then next; pull_to_vec / pull_value / pull_typed_slice / pull_complex_slice re-encoded; for zstd the harness decompresses the pulled bodies itself; distinct = distinct case line; non-trivial = not a single-chunk clean stream",
+        "rule": "real sync-TCP and WebSocket servers, one SVS producer per (kind, element type, chunk_bytes, session_depth, compression); byte producers (reader, writer): payload lengths 0..3n+1 for n in {1,2,3,7,8}, all boundary residues k*n-1, k*n, k*n+1 for n in {64, 4096} (+65536, 1 MiB thorough), depths 0..3 (quick) / 0..8 (thorough), both compressions; every split of tiny payloads into <=3 writes plus random segmentations incl. zero-length and over-long writes; failure injected at 0, 1, L and every chunk boundary +-1, each both as an io::Error returned by the body writer / reader and as a panic of that application code on the producer thread; random sleeps in producer and consumer; BEVE producers (serde value, typed arrays, complex array) around the same boundaries; pullers blocking / async / WebSocket; per case: raw peer open, next until last or error, one more next; second stream with cancel then next; pull_to_vec / pull_value / pull_typed_slice / pull_complex_slice re-encoded; for zstd the harness decompresses the pulled bodies itself; distinct = distinct case line; non-trivial = not a single-chunk clean stream",
         "timeout_s": {"quick": 900, "thorough": 3400},
     },
     "C04": {
